@@ -11,6 +11,7 @@ func init() {
 			"PV-API/PV-ORDER: ( expr ) is parsed as one ParenExpr operand closed by ); UnparenExpr strips all levels; build and evalExpr dispatch on UnparenExpr(expr)",
 			"FE-ORD: no path completes an operation without executing the look-ahead; an empty parenthesised operand yields no pairs (operands matched by key)",
 			"CH-MAP of the sample operations (what each operator of a chain computes), with the operand-side tracer following conversions, arithmetic and loop-carried values",
+			"PV-FRESH step buffers; PV-ROLE build constructs no expression node (no re-association or folding after parsing)",
 		},
 		NotDecided: []string{"operand parsing (parseMetricExpr1 productions other than parentheses) – C05", "evaluation of the resulting tree – C12"},
 		Rules: func(r *Run) {
@@ -19,6 +20,8 @@ func init() {
 			ruleParens(r)
 			ruleBinOpPairsMatched(r) // what a parenthesised operand evaluates to: an empty operand yields no pairs
 			ruleSampleBinOp(r)       // what a chain evaluates to: each operator computes its own function of (left, right)
+			ruleStepBuffers(r)       // the in-place result of an inner operation never feeds a later step of an outer one
+			ruleBuildKeepsTree(r)
 		},
 	})
 }
